@@ -273,16 +273,80 @@ func runC20(w *World, r *Report) {
 	// UpdateMsgBase body
 	if um := w.Func(pkgWriter, "", "UpdateMsgBase"); um != nil {
 		ok := false
+		pdu := postDominators(um)
 		eachInstr(um, func(in ssa.Instruction) {
 			if st, isSt := in.(*ssa.Store); isSt {
 				if w.accessPath(st.Addr) == "param:"+um.Params[0].Name()+".ReplicateInfo" && w.accessPath(st.Val) == "param:"+um.Params[1].Name()+".ReplicateInfo" {
-					ok = true
+					// on every path
+					if st.Block() == um.Blocks[0] || pdu[um.Blocks[0]][st.Block()] {
+						ok = true
+					}
 				}
 			}
 		})
-		r.Check(ok, "C20-R1", "UpdateMsgBase | copies ReplicateInfo", um.Pos(), "dst.ReplicateInfo = src.ReplicateInfo", "UpdateMsgBase does not copy the stamp's ReplicateInfo into the request's Base")
+		r.Check(ok, "C20-R1", "UpdateMsgBase | copies ReplicateInfo", um.Pos(), "dst.ReplicateInfo = src.ReplicateInfo on every path", "UpdateMsgBase does not unconditionally replace the request's ReplicateInfo with the stamp: a request that already carries one keeps its old source timestamp")
 	} else {
 		r.Undecided("C20-R1", "UpdateMsgBase", 0, "anchor not found")
+	}
+
+	// ---------- R8 handler options derived from the parameter are unconditional
+	r.Rule("C20-R8", "handler forwards parameter-derived options unconditionally", "in MilvusDataHandler methods every client.With*(…param field…) option is built on every path to the client call (loops over a parameter list excepted)", 15)
+	if named := w.Named(pkgWriter, "MilvusDataHandler"); named != nil {
+		for i := 0; i < named.NumMethods(); i++ {
+			m := named.Method(i)
+			fn := w.Prog.FuncValue(m)
+			if fn == nil || fn.Blocks == nil || !m.Exported() || fn.Signature.Params().Len() != 2 {
+				continue
+			}
+			pn := fn.Params[2].Name()
+			k := 0
+			eachInstrDeep(fn, func(g *ssa.Function, in ssa.Instruction) {
+				c, ok := in.(*ssa.Call)
+				if !ok {
+					return
+				}
+				s := callSym(c.Common())
+				if !strings.HasPrefix(s.name, "With") || !strings.Contains(s.pkg, "milvus-sdk-go") {
+					return
+				}
+				fromParam := false
+				for _, a := range c.Call.Args {
+					for _, x := range backSlice(a, SliceOpts{MaxDepth: 8, ThroughArg: getterRecv}) {
+						if strings.HasPrefix(w.accessPath(x), "param:"+pn) || x == ssa.Value(fn.Params[2]) {
+							fromParam = true
+						}
+						if fv, isFV := x.(*ssa.FreeVar); isFV && fv.Name() == pn {
+							fromParam = true
+						}
+					}
+				}
+				if !fromParam {
+					return
+				}
+				k++
+				cons := fmt.Sprintf("(*MilvusDataHandler).%s | option %s#%d", m.Name(), s.name, k)
+				pd := postDominators(g)
+				uncond := c.Block() == g.Blocks[0] || pd[g.Blocks[0]][c.Block()]
+				// built directly in the argument list of the client call it belongs to
+				if !uncond && usedByCallInSameBlock(c) {
+					uncond = true
+				}
+				if !uncond {
+					// inside a loop whose header is unconditional
+					if h := loopHeaderOf(c.Block()); h != nil && (h == g.Blocks[0] || pd[g.Blocks[0]][h]) {
+						// and unconditional within the loop body: dominates the back edge sources
+						all := true
+						for _, p := range h.Preds {
+							if (h == p || h.Dominates(p)) && !(c.Block() == p || c.Block().Dominates(p)) {
+								all = false
+							}
+						}
+						uncond = all
+					}
+				}
+				r.Check(uncond, "C20-R8", cons, c.Pos(), "built on every path", "the option carrying a field of the request is only added under a condition: for some field values the downstream request silently uses the SDK default instead of the source's value")
+			})
+		}
 	}
 
 	// event functions: stamp + R7
@@ -696,6 +760,40 @@ func lastIndexOf(v ssa.Value, pack *ssa.Parameter) bool {
 		}
 		if b, ok := lc.Call.Value.(*ssa.Builtin); ok && b.Name() == "len" {
 			return true
+		}
+	}
+	return false
+}
+
+// usedByCallInSameBlock: the value is stored into a varargs array that is sliced and passed to an
+// invoke-mode call in the same block (option built at the call site).
+func usedByCallInSameBlock(c *ssa.Call) bool {
+	if c.Referrers() == nil {
+		return false
+	}
+	for _, ref := range *c.Referrers() {
+		st, ok := ref.(*ssa.Store)
+		if !ok {
+			continue
+		}
+		ia, ok := st.Addr.(*ssa.IndexAddr)
+		if !ok {
+			continue
+		}
+		al, ok := ia.X.(*ssa.Alloc)
+		if !ok || al.Referrers() == nil {
+			continue
+		}
+		for _, r2 := range *al.Referrers() {
+			sl, ok := r2.(*ssa.Slice)
+			if !ok || sl.Referrers() == nil {
+				continue
+			}
+			for _, r3 := range *sl.Referrers() {
+				if k, ok := r3.(*ssa.Call); ok && k.Block() == c.Block() && k.Call.IsInvoke() {
+					return true
+				}
+			}
 		}
 	}
 	return false
